@@ -55,7 +55,8 @@ THEOREMS = {
             "Cntgs.C09.swap_exchanges", "Cntgs.C09.self_operations", "Cntgs.C09.copy_assignment", "Cntgs.C09.move_assignment_steal",
             "Cntgs.C09.move_assignment_elementwise", "Cntgs.C09.moved_from_usable", "Cntgs.C09.relocated_offset_table",
             "Cntgs.C09.relocated_stride", "Cntgs.C09.copy_is_canonical", "Cntgs.C09.history_any_number_of_vectors",
-            "Cntgs.C09.observations", "Cntgs.step_refines"],
+            "Cntgs.C09.observations", "Cntgs.step_refines",
+            "Cntgs.C09.moved_from_is_an_empty_vector", "Cntgs.C09.moved_from_sources"],
     "C10": ["Cntgs.C10.within_capacity_is_noop", "Cntgs.C10.capacity_after", "Cntgs.C10.keeps_fixed_sizes",
             "Cntgs.C10.keeps_contents_offset_table", "Cntgs.C10.keeps_contents_stride", "Cntgs.C10.repeated", "Cntgs.C02.reserve_room"],
     "C16": ["Cntgs.C16.emplace_keeps_addresses", "Cntgs.C16.pop_keeps_addresses", "Cntgs.C16.clear_keeps_addresses",
